@@ -189,6 +189,25 @@ func execHTTP(sys *Sys, g *Graph, e Edge, probe bool, r *rand.Rand) ([]string, O
 	}
 	sys.byAddr[addr] = callerInfo{raw: resp, err: werr, useRaw: true}
 	sys.whoMu.Unlock()
+	if q.Body.Class != "valid" && r.Intn(2) == 0 {
+		// An earlier accepted request must leave nothing behind for this one: a read-only request whose body is a
+		// valid document padded to the decoder's read size and followed by a second document (the service has
+		// always ignored what follows the first value). If anything of it survived, the malformed request below
+		// would be executed as that second document.
+		first := `{"Name":` + strconvQuote(sys.D.Name("A")) + `}`
+		second := `{"Name":` + strconvQuote(sys.D.Name("A")) + `,"Value":"ZXZpbCBsZWZ0b3Zlcg==","Version":1}`
+		for _, pad := range []int{512, 4096} {
+			pb := first + strings.Repeat(" ", pad-len(first)) + second
+			preq := httptest.NewRequest("POST", "http://setec.test/api/info", strings.NewReader(pb))
+			preq.Header.Set("Content-Type", "application/json")
+			preq.Header.Set("Sec-X-Tailscale-No-Browsers", "setec")
+			preq.RemoteAddr = sys.addrFor("primer", sys.aclRules(suRules))
+			func() {
+				defer func() { recover() }()
+				sys.Mux.ServeHTTP(httptest.NewRecorder(), preq)
+			}()
+		}
+	}
 	sys.Sink.Take()
 	preHash := fileHash(sys.Path)
 	preGen := sys.DB.WriteGen()
